@@ -96,7 +96,7 @@ func Exec(state State, env *BlockEnv, msg *ExecMsg, o ExecOpts) *ExecResult {
 			w.warmAddr[addr] = true
 		}
 		w.accts.GetOrNew(msg.From).Nonce = nonce + 1
-		if acc := w.accts[addr]; acc != nil && (acc.Nonce != 0 || len(acc.Code) != 0 || len(acc.Storage) != 0) {
+		if e.collides(addr) {
 			r = Result{Err: HaltCollision}
 		} else {
 			r = e.createMessage(&Message{Caller: msg.From, Self: addr, CodeAddr: addr, Value: value, Transfer: true, Gas: msg.Gas, Create: true, Code: msg.Data, Static: msg.Static})
@@ -132,7 +132,7 @@ func Exec(state State, env *BlockEnv, msg *ExecMsg, o ExecOpts) *ExecResult {
 // blob fee derived exactly as Transition does); ok=false if the base fee cannot be derived.
 func NewBlockEnv(f Fork, env *Env) (*BlockEnv, bool) {
 	be := &BlockEnv{Fork: f, ChainID: env.ChainID, Coinbase: env.Coinbase, Number: env.Number, Timestamp: env.Timestamp,
-		GasLimit: env.GasLimit, Random: env.Random}
+		GasLimit: env.GasLimit, Random: env.Random, Quirks: env.Quirks}
 	if be.ChainID == nil {
 		be.ChainID = big.NewInt(1)
 	}
